@@ -1,7 +1,9 @@
 //! Minimal extraction of the Code attributes of a class file without any validation beyond
 //! bounds (used for outputs of trees that reading cannot produce, which the strict parser may
 //! reject for reasons that are not the writer's, e.g. an exception range with start >= end).
-pub struct LCode { pub code: Vec<u8>, pub exc: Vec<(u16, u16, u16)>, pub lines: Vec<u16>, pub lvt: Vec<(u16, u16)>, pub lvtt: Vec<(u16, u16)> }
+pub struct LCode { pub code: Vec<u8>, pub exc: Vec<(u16, u16, u16)>, pub lines: Vec<u16>, pub lvt: Vec<(u16, u16)>, pub lvtt: Vec<(u16, u16)>,
+	/// the body of the StackMapTable attribute, as it is in the file
+	pub stack_map: Option<Vec<u8>> }
 
 struct R<'a> { b: &'a [u8], p: usize }
 impl<'a> R<'a> {
@@ -50,17 +52,19 @@ pub fn codes(bytes: &[u8]) -> Option<Vec<Option<LCode>>> {
 				for _ in 0..ne { exc.push((c.u2()?, c.u2()?, c.u2()?)); c.u2()?; }
 				let na = c.u2()?;
 				let (mut lines, mut lvt, mut lvtt) = (vec![], vec![], vec![]);
+				let mut stack_map = None;
 				for _ in 0..na {
 					let an = c.u2()? as usize; let al = c.u4()? as usize; let ab = c.take(al)?;
 					let mut a = R { b: ab, p: 0 };
 					match utf8.get(an).copied().flatten() {
+						Some(b"StackMapTable") => { stack_map = Some(ab.to_vec()); }
 						Some(b"LineNumberTable") => { let k = a.u2()?; for _ in 0..k { lines.push(a.u2()?); a.u2()?; } }
 						Some(b"LocalVariableTable") => { let k = a.u2()?; for _ in 0..k { lvt.push((a.u2()?, a.u2()?)); a.take(6)?; } }
 						Some(b"LocalVariableTypeTable") => { let k = a.u2()?; for _ in 0..k { lvtt.push((a.u2()?, a.u2()?)); a.take(6)?; } }
 						_ => {}
 					}
 				}
-				found = Some(LCode { code, exc, lines, lvt, lvtt });
+				found = Some(LCode { code, exc, lines, lvt, lvtt, stack_map });
 			}
 		}
 		out.push(found);
